@@ -37,6 +37,39 @@ def big_framework(rng, n_target):
     return n, atts
 
 
+def bridged_gadgets(rng):
+    """2-5 semantic gadgets (floating acceptance, cliques, odd cycles, ...) chained by bridging attacks into one or two
+    components of 6-22 arguments, plus an unattacked argument attacking into it; numbered in construction order half of
+    the time (so that traversal orders and declaration orders often coincide), randomly otherwise"""
+    parts, offs = [], []
+    tot = 0
+    for _ in range(rng.randint(2, 5)):
+        k, a = rng.choice(gen.GADGETS)
+        if tot + k > 21:
+            break
+        offs.append((tot, k))
+        parts.append((k, a))
+        tot += k
+    n, atts = gen.disjoint_union(parts)
+    for i in range(len(offs) - 1):
+        if rng.random() < 0.85:
+            (o1, k1), (o2, k2) = offs[i], offs[i + 1]
+            x, y = o1 + rng.randrange(k1), o2 + rng.randrange(k2)
+            atts.append((x, y) if rng.random() < 0.7 else (y, x))
+    for _ in range(rng.randint(0, 2)):
+        atts.append((rng.randrange(n), rng.randrange(n)))
+    if rng.random() < 0.6:
+        atts.append((n, rng.randrange(n)))     # an unattacked (grounded) argument attacking into the rest
+        n += 1
+    atts = list(dict.fromkeys(atts))
+    if rng.random() < 0.5:
+        perm = list(range(n))
+        rng.shuffle(perm)
+        atts = [(perm[a], perm[b]) for a, b in atts]
+    rng.shuffle(atts)
+    return n, atts
+
+
 def iccma(n, atts, labels=None):
     return "i:%d:%s" % (n, ",".join("%d>%d" % (a + 1, b + 1) for a, b in atts))
 
@@ -45,7 +78,7 @@ class C11(Property):
     id = "C11"
     families = ["multi"]
     rule = ("frameworks of 20-60 arguments (quick) / up to 300 (thorough), structured sparse (rings, chains, random blocks, bridges), well-founded ones (trees / sparse DAGs of 18-120 arguments, 12 arguments queried) plus small ones (random and unions of semantic gadgets, 160 per quick run) whose statuses are also "
-            "judged by the reference deciders; for each: argument permutation + attack-line permutation and duplication, disjoint union with another framework "
+            "judged by the reference deciders, plus 600 per quick run of dense frameworks of mutual attacks and of chains of bridged semantic gadgets (6-22 arguments, every argument queried for PR/CO/ST: many complete sets, long preferred searches, skeptically accepted arguments outside the grounded extension); for each: argument permutation + attack-line permutation and duplication, disjoint union with another framework "
             "(with and without stable extension), and the cross-semantics relations (GR in ID in PR, DS implies DC when an extension exists, ST=SST=STG when "
             "a stable extension exists) on the answers of all seven solvers; plus the two binaries on transformed input files (8-300 arguments): base file, permuted / duplicated lines, "
             "union with an unrelated framework, Aspartix presentation with shuffled declarations - same status (same extension for GR / ID); non-trivial = framework with >= 10 arguments")
@@ -56,8 +89,23 @@ class C11(Property):
         self.groups = []
         nbase = 36 if tier == "quick" else 4000
         nsmall = 160 if tier == "quick" else 12000   # additional small frameworks: every status is also judged
-        for g in range(nbase + nsmall):
-            if g >= nbase or g % 4 == 0:
+        nmut = 600 if tier == "quick" else 12000      # dense frameworks of mutual attacks: many complete sets, long preferred searches
+        for g in range(nbase + nsmall + nmut):
+            mutual = g >= nbase + nsmall
+            if mutual and g % 2 == 0:
+                n, atts = bridged_gadgets(rng)
+            elif mutual:
+                n = rng.randint(7, 22)
+                atts = []
+                for a in range(n):
+                    for b in range(a + 1, n):
+                        r = rng.random()
+                        if r < 0.16:
+                            atts += [(a, b), (b, a)]
+                        elif r < 0.22:
+                            atts.append(rng.choice([(a, b), (b, a)]))
+                rng.shuffle(atts)
+            elif g >= nbase or g % 4 == 0:
                 n, atts = gen.random_framework(rng, 8) if rng.random() < 0.5 else gen.gadget_union(rng, 8)
                 if n == 0:
                     n, atts = 1, []
@@ -78,7 +126,9 @@ class C11(Property):
             heavy = n > 80
             args = rng.sample(range(n), min(n, (12 if (g < nbase and g % 4 == 1) else 4) if n > 9 else n))
             qs = []
-            for sem in SEMS:
+            if mutual:
+                args = list(range(n))
+            for sem in (["PR", "CO", "ST"] if mutual else SEMS):
                 if heavy and sem in ("SST", "STG", "ID"):
                     continue
                 if sem != "CO":
